@@ -113,7 +113,13 @@ class HashFileDB(ObjectDB):
                 if verify:
                     self.check(o, check_hash=True)
                 self.protect(cache_path)
-            except (ObjectFormatError, FileNotFoundError):
+            except ObjectFormatError as exc:
+                # check() has removed the corrupted object, so it must not be
+                # counted (or reported by the caller) as added
+                if on_error is not None:
+                    transferred -= 1
+                    on_error(o, exc)
+            except FileNotFoundError:
                 pass
 
         self.state.save_many(
